@@ -351,6 +351,16 @@ class SStr(SVal):
             raise Unsupported("str.split without separator / with maxsplit")
         return SplitVal(self.t, term(sep))
 
+    def meth_lstrip(self, cx, chars=None):
+        if not isinstance(chars, str) or len(chars) != 1:
+            raise Unsupported("str.lstrip() except for a single given character")
+        # result s[k:]: the first k characters are all `chars`, the next one (if any) is not
+        k = z3.Int(fresh_name("lstrip_k"))
+        c = z3.StringVal(chars)
+        n = z3.Length(self.t)
+        cx.assume(z3.And(0 <= k, k <= n, z3.InRe(z3.SubString(self.t, 0, k), z3.Star(z3.Re(c))), z3.Or(k == n, z3.SubString(self.t, k, 1) != c)))
+        return SStr(z3.SubString(self.t, k, n - k))
+
     def meth_strip(self, cx, chars=None):
         if not isinstance(chars, str):
             raise Unsupported("str.strip() of symbolic chars / whitespace")
@@ -379,12 +389,31 @@ class SplitVal(SVal):
         self.i3 = z3.IndexOf(s, sep, self.i2 + L)
         self.L = L
 
+    def meth_pop(self, cx, *idx):
+        """segs.pop(): the last part. The list is not modelled as mutable: it must not be used afterwards."""
+        if idx:
+            raise Unsupported("split(...).pop(i)")
+        if getattr(self, "consumed", False):
+            raise Unsupported("a split list used after pop()")
+        v = self.py_getitem(cx, -1)
+        self.consumed = True
+        h = cx.ghost.get("hint_last_part")
+        if h is not None:  # an intermediate lemma of the spec about this value: proved here, then used
+            fact = h(v.t)
+            cx.oblige("hint:last-part", "hint", fact, clause="intermediate lemma (proof hint)")
+            cx.assume(fact)
+        return v
+
     def py_len(self, cx):
+        if getattr(self, "consumed", False):
+            raise Unsupported("a split list used after pop()")
         more = z3.Int(fresh_name("split_more"))
         cx.assume(more >= 4)
         return SInt(z3.If(self.i1 < 0, 1, z3.If(self.i2 < 0, 2, z3.If(self.i3 < 0, 3, more))))
 
     def py_getitem(self, cx, idx):
+        if getattr(self, "consumed", False):
+            raise Unsupported("a split list used after pop()")
         s, sep, L = self.s, self.sep, self.L
         n = z3.Length(s)
         if idx == 0:
@@ -398,9 +427,12 @@ class SplitVal(SVal):
             st = self.i2 + L
             return SStr(z3.If(self.i3 < 0, z3.SubString(s, st, n - st), z3.SubString(s, st, self.i3 - st)))
         if idx == -1:
-            i = z3.LastIndexOf(s, sep)
-            start = i + L
-            return SStr(z3.If(i < 0, s, z3.SubString(s, start, n - start)))
+            # the last part p: a suffix without the separator that is the whole string or preceded by the separator
+            # (unique for a non-empty separator; stated without seq.last_indexof, which only z3 knows)
+            p = z3.String(fresh_name("last_part"))
+            lp = z3.Length(p)
+            cx.assume(z3.And(z3.SuffixOf(p, s), z3.Not(z3.Contains(p, sep)), z3.Or(lp == n, z3.And(n - lp - L >= 0, z3.SubString(s, n - lp - L, L) == sep))))
+            return SStr(p)
         raise Unsupported("str.split(...)[i] for i > 2")
 
 
